@@ -125,7 +125,7 @@ Proof.
 Qed.
 Theorem retarder_unitary (d theta : R) : is_unitary (retarder_spec d theta).
 Proof.
-  apply rotated_unitary; unfold Ccis, cabs2; rops; cbn [fst snd]; apply cs1.
+  unfold retarder_spec. apply rotated_unitary; cx_unfold; apply cs1.
 Qed.
 (** eigen-structure: the fast axis (cos t, sin t) gets phase -d/2, the slow axis +d/2:
     the phase difference between the axes is the stated retardance d *)
@@ -279,7 +279,7 @@ Qed.
 
 (** ** Linear diattenuator: the diagonal agrees with R(theta) diag(t_max, t_min) R(-theta);
        the off-diagonal does not (see Findings/F_C17.v) *)
-Definition nthR (l : list R) (i : nat) : R := nth i l 0.
+Definition nthR (l : list R) (i : nat) : R := List.nth i l 0%R.
 Theorem diattenuator_diagonal_partial (t_min t_max theta x : R) :
   let k := k_jones_diattenuator ROps t_max theta t_min x in
   let m := m3_flat (diattenuator_spec t_min t_max theta) in
@@ -287,6 +287,6 @@ Theorem diattenuator_diagonal_partial (t_min t_max theta x : R) :
   nthR k 16 = nthR m 16 /\ nthR k 17 = nthR m 17.
 Proof.
   cbv beta delta [k_jones_diattenuator] iota zeta.
-  m3_unfold. cx_unfold. rewrite ?cos_neg, ?sin_neg. unfold nthR. cbn [nth].
+  m3_unfold. cx_unfold. rewrite ?cos_neg, ?sin_neg. unfold nthR. cbn [List.nth].
   repeat split; ring.
 Qed.
